@@ -13,10 +13,10 @@ def s(x):
     return '{' + ', '.join(x) + '}'
 
 
-def cfg(name, graphs, T, qe, qn, modes, nes, widths, cuts, maxops, sample, moves, emit, invs, props=(), exh='{}'):
+def cfg(name, graphs, T, qe, qn, modes, nes, widths, cuts, maxops, sample, moves, emit, invs, props=(), exh='{}', debugs='{FALSE}'):
     lines = [f'CONSTANTS Graphs = {graphs} T = {T} QE = {qe} QN = {qn} NodeModes = {modes} NEs = {nes}',
              f'  Widths = {widths} Cuts = {cuts} MaxOps = {maxops} SAMPLE = {sample} Moves = {moves} EMIT = {emit}',
-             f'  ExhGraphs = {exh}', 'SPECIFICATION Spec']
+             f'  ExhGraphs = {exh} Debugs = {debugs}', 'SPECIFICATION Spec']
     lines += [f'INVARIANT {i}' for i in invs] + [f'PROPERTY {p}' for p in props] + ['CHECK_DEADLOCK FALSE']
     open(os.path.join(D, name + '.cfg'), 'w').write('\n'.join(lines) + '\n')
 
@@ -44,4 +44,8 @@ for th in (False, True):
     cfg('LatticeMC_C06e' + sx, G, T, Q4, Q3, BOTH, TT, '{0}', CUTS, 1, 3 * k, '{"m11", "m10"}', 'TRUE', ['EmitBehaviour'])
     cfg('LatticeMC_C07e' + sx, '{"line", "selfl", "tri"}' if not th else G, T, Q4, Q3, BOTH, BOTH, '{1, 2}', '{"none", "prob"}', 3, 1 * k, '{"m11"}', 'TRUE', ['EmitBehaviour'])
     cfg('LatticeMC_C08e' + sx, '{"line", "selfl", "tri"}' if not th else G, T, Q4, Q3, BOTH, BOTH, '{0, 2}', '{"none", "dist"}', 3, 1 * k, '{"m11"}', 'TRUE', ['EmitBehaviour'])
+    cfg('LatticeMC_C19' + sx, G, T, Q4, Q3, BOTH, FF, '{0, 1, 2}', CUTS, 1, 6 * k, '{"m11", "m00"}', 'FALSE', ['C19scoped'])
+    cfg('LatticeMC_C19x' + sx, G, T, Q4, Q3, BOTH, BOTH, '{0, 1, 2}', CUTS, 1, 6 * k, '{"m11", "m00"}', 'FALSE', ['C19all'])
+    cfg('LatticeMC_C19e' + sx, '{"line", "selfl", "dead"}' if not th else G, T, Q4, Q3, BOTH, BOTH, '{0, 2}', CUTS, 2, 1 * k, '{"m11"}', 'TRUE', ['EmitBehaviour'], debugs='{TRUE}')
+    cfg('LatticeMC_C10' + sx, G, T, Q4, Q3, BOTH, BOTH, '{0, 1, 2}', CUTS, 1, 4 * k, '{"m11", "m00"}', 'FALSE', ['C10order'])
     cfg('LatticeMC_ALLe' + sx, '{"line", "selfl", "dead"}' if not th else G, T, Q4, Q3, BOTH, BOTH, '{0, 1, 2}', '{"none", "dist", "prob"}', 3, 1 * k, '{"m11"}', 'TRUE', ['EmitBehaviour'])
